@@ -11,4 +11,4 @@ import (
 var c20LaxGoVersionRE = regexp.MustCompile(`^v?(([1-9][0-9]*)\.(0|[1-9][0-9]*))([^0-9].*)$`)
 var c20DeprecatedRE = regexp.MustCompile(`(?s)(?:^|\n\n)Deprecated: *(.*?)(?:$|\n\n)`)
 
-func timeAfter(d time.Duration) <-chan time.Time { return time.After(d) }
+func c20TimeAfter(d time.Duration) <-chan time.Time { return time.After(d) }
